@@ -345,8 +345,12 @@ def run_impl(cfg):
             def add_item(self, item, _b=base):
                 f = sys._getframe(1)
                 node = f.f_locals.get("self")
-                log.lines.append("K %d %d %d %d" % (env.now, log.node_index.get(id(node), -1), self._vidx, getattr(item, "_vidx", -1)))
-                return _b.add_item(self, item)
+                r = _b.add_item(self, item)
+                its = getattr(self, "items", None)
+                if its is None or (its and its[-1] is item):
+                    # a pack is an event of the trace only if the item really is on the pallet now (last of its contents)
+                    log.lines.append("K %d %d %d %d" % (env.now, log.node_index.get(id(node), -1), self._vidx, getattr(item, "_vidx", -1)))
+                return r
             Logged.add_item = add_item
         Logged.__name__ = base.__name__
         return Logged
@@ -640,10 +644,35 @@ def gen_config_conv_queue(rng):
     return dict(model="factory", T=rng.choice([30, 40]), nodes=nodes, edges=edges, connects=connects, order=order, model_skip=True)
 
 
+def gen_config_conv_series(rng):
+    """source -> conveyor A -> multi-worker machine -> conveyor B -> sink: items that have been on a conveyor before enter the
+    second belt in bursts (two workers finishing together)"""
+    def nd(kind, **kw):
+        d = dict(kind=kind, ins=[], outs=[], style="const", blocking=True, setup=0, wcap=1, insel=("FA",), outsel=("FA",), delays=[0])
+        d.update(kw)
+        return d
+    # alternating long / short processing times: workers that started one after the other finish in the same instant
+    nodes = [nd("source", delays=[1]), nd("machine", wcap=rng.choice([2, 2, 3]), delays=rng.choice([[3, 2], [2, 1], [4, 3, 2], [3, 1, 2]]),
+                                          style=rng.choice(["callable", "generator"]), setup=rng.choice([0, 3])),
+             nd("sink")]
+    def cv(s_, d_):
+        return dict(kind="conv", ckind=rng.choice(["slot", "cont"]), cap=rng.choice([1, 2, 3]), acc=rng.choice([0, 1]), src=s_, dst=d_)
+    edges = [cv(0, 1), cv(1, 2)]
+    connects = [(i, e["src"], e["dst"]) for i, e in enumerate(edges)]
+    for (i, s_, d_) in connects:
+        nodes[s_]["outs"].append(i)
+        nodes[d_]["ins"].append(i)
+    order = ["N%d" % i for i in range(len(nodes))] + ["E%d" % i for i in range(len(edges))]
+    rng.shuffle(order)
+    return dict(model="factory", T=rng.choice([20, 30]), nodes=nodes, edges=edges, connects=connects, order=order, model_skip=True)
+
+
 def gen_config_conv(rng):
     """a factory in which some edges are conveyors: run on the implementation only and judged by the oracle"""
     if rng.random() < 0.12:
         return gen_config_conv_queue(rng)
+    if rng.random() < 0.1:
+        return gen_config_conv_series(rng)
     if rng.random() < 0.25:
         return gen_config_conv_fanout(rng)
     sc = rng.random() < 0.3
@@ -734,8 +763,38 @@ def gen_config(rng, with_fleet=False):
     return cfg
 
 
+def gen_config_csc(rng):
+    """pack, unpack, pack again: pallet source + item source -> combiner (q items per pallet) -> splitter that routes the q items to
+    its out-edge 1 and the emptied pallet to its out-edge 0 (a cyclic user policy) -> second combiner (same recipe) -> sink: the items
+    the second combiner packs have been on a pallet before"""
+    q = rng.choice([1, 2, 2, 3])
+    def nd(kind, **kw):
+        d = dict(kind=kind, ins=[], outs=[], recipe=[], pallet=False, style="const", blocking=True, setup=rng.choice([0, 0, 1]), wcap=1,
+                 insel=("FA",), outsel=("FA",), delays=[0])
+        d.update(kw)
+        return d
+    st = rng.choice(["callable", "generator"])
+    nodes = [nd("source", pallet=True, delays=[rng.choice([1, 2])], setup=0), nd("source", delays=[1], setup=0),
+             nd("combiner", recipe=[0, q], delays=[rng.choice([0, 1])], outsel=rng.choice([("FA",), ("C", 0)])),
+             nd("splitter", delays=[rng.choice([0, 1])], outsel=("S", [1] * q + [0]), style=st),
+             nd("combiner", recipe=[0, q], delays=[rng.choice([0, 1, 2])]), nd("sink", setup=0)]
+    def buf(s_, d_, cap):
+        return dict(kind="buffer", cap=cap, mode="FIFO", delays=[0], style="const", src=s_, dst=d_)
+    edges = [buf(0, 2, rng.choice([1, 2, 3])), buf(1, 2, rng.choice([2, 4])), buf(2, 3, rng.choice([1, 2])),
+             buf(3, 4, rng.choice([1, 2, 3])), buf(3, 4, rng.choice([q, q + 1, 2 * q + 1])), buf(4, 5, rng.choice([1, 3]))]
+    connects = [(i, e["src"], e["dst"]) for i, e in enumerate(edges)]
+    for (i, s_, d_) in connects:
+        nodes[s_]["outs"].append(i)
+        nodes[d_]["ins"].append(i)
+    order = ["N%d" % i for i in range(len(nodes))] + ["E%d" % i for i in range(len(edges))]
+    rng.shuffle(order)
+    return dict(model="factory", T=rng.choice([25, 40]), nodes=nodes, edges=edges, connects=connects, order=order)
+
+
 def gen_config_sc(rng):
     """factories with pallets: pallet source + item sources -> combiner -> (machine) -> splitter -> sinks"""
+    if rng.random() < 0.1:
+        return gen_config_csc(rng)
     nodes, edges = [], []
 
     def node(kind, **kw):
@@ -783,6 +842,10 @@ def gen_config_sc(rng):
             # a second in-edge: (empty) pallets straight from a pallet source of their own, so that the splitter has to choose
             ps2 = node("source", pallet=True)
             edge(ps2, sp)
+            if rng.random() < 0.5:
+                # ... and a third (loops over the in-edges that go wrong only from the third edge on)
+                ps3 = node("source", pallet=True)
+                edge(ps3, sp)
         last = sp
     fan = rng.choice([1, 1, 2, 2, 3, 3])
     for _ in range(fan):
